@@ -134,7 +134,8 @@ fn main() {
                 }
             } else {
                 let mut s = seed.wrapping_mul(6364136223846793005).wrapping_add(1442695040888963407) | 1;
-                for _ in 0..1_500_000u64 {
+                let samples: u64 = std::env::var("VK_SAMPLES").ok().and_then(|s| s.parse().ok()).unwrap_or(400_000);
+                for _ in 0..samples {
                     let v: Vec<u64> = doms
                         .iter()
                         .map(|d| {
